@@ -543,4 +543,31 @@ Theorem T02k_duplicate_old_refuted :
 Proof. exact duplicate_old_refuted. Qed.
 Print Assumptions T02k_duplicate_old_refuted.
 
+
+(* T02k.8  fixes.delete_unused_functions_and_classes (preserve = {}): the model of the rule -- five passes of
+   du_pass, with the scheduler's "the removal of a method wins over the removal of its class" -- leaves the
+   run of the module unchanged for every fuel.  uniq_cls: class names are distinct; no_dyn: no
+   getattr(x, "name") (known finding F02-28; effects of the deleted definition itself: F02-29, duck typing
+   through library protocols: F02-30 are outside this semantics). *)
+Theorem T02k_delete_unused_sound :
+  forall M, no_dyn M = true -> uniq_cls M = true ->
+  forall fuel, run_module fuel (du_model M) = run_module fuel M.
+Proof. exact delete_unused_sound. Qed.
+Print Assumptions T02k_delete_unused_sound.
+
+Theorem T02k_delete_unused_dynamic_refuted :
+  exists M, uniq_cls M = true /\ no_dyn M = false /\ run_module 9 (du_model M) <> run_module 9 M
+            /\ snd (run_module 9 M) = OOk.
+Proof. exact delete_unused_dynamic_refuted. Qed.
+Print Assumptions T02k_delete_unused_dynamic_refuted.
+
+Example T02k_delete_unused_example :
+  let M := mkMod [IFunc (mkFunc 1 0 [ACall RMod 2 0]); IFunc (mkFunc 2 0 [AEv 2]); IFunc (mkFunc 3 0 [ACall RMod 3 0]);
+                  IClass (mkCls 1 None [mkMeth 50 KPlain 1 [AEv 5]; mkMeth 1 KPlain 1 [AUse]; mkMeth 2 KPlain 1 []] []);
+                  IClass (mkCls 2 None [mkMeth 1 KPlain 1 []] [])] [] []
+                 [ACall (RNew 1) 1 0; ACall RMod 1 0] in
+  no_dyn M = true /\ uniq_cls M = true /\ length (m_items (du_model M)) = 3
+  /\ run_module 20 M = ([TEv 5; TUse (SInst 1); TEv 2], OOk).
+Proof. repeat split; reflexivity. Qed.
+
 End Cls.
